@@ -9,6 +9,7 @@ let () =
     | "ranges" | "rangeord" | "rangeq" -> D_ranges.eval, D_ranges.oracle
     | "terms" | "bitset" -> D_terms.eval, D_terms.oracle
     | "offline" -> D_offline.eval, D_offline.oracle
+    | "serde" -> D_serde.eval, D_serde.oracle
     | "solver" | "faults" -> D_solver.eval, D_solver.oracle
     | _ -> failwith "unknown domain" in
   let n = ref 0 in
